@@ -16,7 +16,10 @@
 //!           ct:<mime>:<display>   content_type(mime.parse())   display = `Mime::to_string()` (opaque, from `gen`)
 //!           bs:<utf8> bb:<bytes> bj:<canonical json text> bf:<k>=<v>,…   body_string / body_bytes / body_json / body_form
 //!           gs:<utf8> gb:<bytes> gj:<json>                               body(String) / body(Vec<u8>) / body(serde_json::Value)
-//!           gr:<bytes>                                                   body(Body::from_reader(cursor, None)) (length unknown)
+//!           gr:<mode>:<declared>:<c1>,<c2>…   body(Body::from_reader(reader, declared)): the reader yields the chunks one
+//!                                 after the other; mode `c` = a chain of cursors (one read never crosses a chunk boundary),
+//!                                 `s` = a reader that returns one byte per read; declared = `n` (None) or a length;
+//!                                 chunks `_` = none
 //!           q:<k>=<v>,…:<url after the call>   query(&map)   (result computed by `gen` with serde_qs + url directly)
 //! C14 out : `req <number of effects> <METHOD> <url> <headers> <body>` | `panic <class>`
 //!           headers: `_` or `,`-separated `<name>=<value>` in the order of the effect (the code sorts them by name,
@@ -63,7 +66,7 @@ pub enum BCall {
     GenBytes(Vec<u8>),
     GenJson(serde_json::Value),
     /// `body(Body::from_reader(cursor, None))`: a body whose length is not known in advance
-    GenReader(Vec<u8>),
+    GenReader(char, Option<usize>, Vec<Vec<u8>>),
     Query(Pairs),
 }
 
@@ -131,6 +134,56 @@ fn header_values(vs: &[String]) -> Vec<HeaderValue> {
     vs.iter().map(|v| HeaderValue::from_str(v).expect("String slice should be valid ASCII")).collect()
 }
 
+/// a reader that hands out one byte per read
+struct OneByte {
+    data: Vec<u8>,
+    pos: usize,
+}
+
+impl futures::io::AsyncRead for OneByte {
+    fn poll_read(
+        mut self: std::pin::Pin<&mut Self>,
+        _cx: &mut std::task::Context<'_>,
+        buf: &mut [u8],
+    ) -> std::task::Poll<std::io::Result<usize>> {
+        if self.pos >= self.data.len() || buf.is_empty() {
+            return std::task::Poll::Ready(Ok(0));
+        }
+        buf[0] = self.data[self.pos];
+        self.pos += 1;
+        std::task::Poll::Ready(Ok(1))
+    }
+}
+
+impl futures::io::AsyncBufRead for OneByte {
+    fn poll_fill_buf(self: std::pin::Pin<&mut Self>, _cx: &mut std::task::Context<'_>) -> std::task::Poll<std::io::Result<&[u8]>> {
+        let this = self.get_mut();
+        let end = (this.pos + 1).min(this.data.len());
+        std::task::Poll::Ready(Ok(&this.data[this.pos..end]))
+    }
+    fn consume(mut self: std::pin::Pin<&mut Self>, amt: usize) {
+        self.pos += amt;
+    }
+}
+
+type DynReader = Box<dyn futures::io::AsyncBufRead + Unpin + Send + Sync + 'static>;
+
+/// `Body::from_reader(reader, declared)` for a reader that yields `chunks` in pieces
+fn reader_body(mode: char, declared: Option<usize>, chunks: &[Vec<u8>]) -> crux_http::http::Body {
+    use futures::io::{AsyncReadExt, Cursor};
+    let reader: DynReader = if mode == 's' {
+        Box::new(OneByte { data: chunks.concat(), pos: 0 })
+    } else {
+        // Cursor(c1).chain(Cursor(c2))…: a single `read` returns at most the rest of the current cursor
+        let mut r: DynReader = Box::new(Cursor::new(chunks.first().cloned().unwrap_or_default()));
+        for c in chunks.iter().skip(1) {
+            r = Box::new(r.chain(Cursor::new(c.clone())));
+        }
+        r
+    };
+    crux_http::http::Body::from_reader(reader, declared)
+}
+
 /// the builder calls are identical for both APIs; only the builder types differ
 macro_rules! apply_calls {
     ($b:expr, $calls:expr) => {{
@@ -150,7 +203,7 @@ macro_rules! apply_calls {
                 BCall::GenString(s) => b.body(s.clone()),
                 BCall::GenBytes(x) => b.body(x.clone()),
                 BCall::GenJson(j) => b.body(j.clone()),
-                BCall::GenReader(x) => b.body(crux_http::http::Body::from_reader(futures::io::Cursor::new(x.clone()), None)),
+                BCall::GenReader(mode, declared, chunks) => b.body(reader_body(*mode, *declared, chunks)),
                 BCall::Query(p) => b.query(p).expect("query"),
             };
         }
@@ -346,7 +399,15 @@ fn parse_call(s: &str) -> Option<BCall> {
         ["gs", b] => BCall::GenString(string(b)?),
         ["gb", b] => BCall::GenBytes(from_hex(b)?),
         ["gj", b] => BCall::GenJson(serde_json::from_slice(&from_hex(b)?).ok()?),
-        ["gr", b] => BCall::GenReader(from_hex(b)?),
+        ["gr", mode, d, cs] => BCall::GenReader(
+            match *mode {
+                "c" => 'c',
+                "s" => 's',
+                _ => return None,
+            },
+            if *d == "n" { None } else { Some(d.parse().ok()?) },
+            if *cs == "_" { vec![] } else { cs.split(',').map(from_hex).collect::<Option<Vec<_>>>()? },
+        ),
         ["q", ps, _url] => BCall::Query(parse_pairs(ps)?),
         _ => return None,
     })
@@ -771,6 +832,33 @@ fn rand_mime(r: &mut Rng) -> &'static str {
     ])
 }
 
+/// a reader body: 1-4 chunks of size 0 / 1 / small / large, chained cursors or one byte per read; declared length
+/// none / exact (mostly) / smaller / larger
+fn rand_reader(r: &mut Rng) -> String {
+    let k = 1 + r.below(4) as usize;
+    let chunks: Vec<Vec<u8>> = (0..k)
+        .map(|_| {
+            let len = match r.below(10) {
+                0 | 1 => 0,
+                2 | 3 => 1,
+                4 => 5000,
+                5 => 70000,
+                _ => 2 + r.below(60) as usize,
+            };
+            (0..len).map(|_| r.next() as u8).collect()
+        })
+        .collect();
+    let total: usize = chunks.iter().map(Vec::len).sum();
+    let mode = if total <= 6000 && r.chance(1, 3) { "s" } else { "c" };
+    let declared = match r.below(10) {
+        0..=2 => "n".to_string(),
+        3..=7 => total.to_string(),
+        8 => (total / 2).to_string(),
+        _ => (total + 1 + r.below(10) as usize).to_string(),
+    };
+    format!("gr:{mode}:{declared}:{}", chunks.iter().map(|c| to_hex(c)).collect::<Vec<_>>().join(","))
+}
+
 fn rand_call(r: &mut Rng) -> String {
     match r.below(20) {
         0..=7 => {
@@ -791,14 +879,51 @@ fn rand_call(r: &mut Rng) -> String {
         11 | 12 => format!("bb:{}", to_hex(&rand_bytes(r))),
         13 | 14 => format!("bj:{}", to_hex(&serde_json::to_vec(&rand_json(r, 0)).unwrap())),
         15 => format!("bf:{}", rand_pairs(r)),
-        16 => match r.below(4) {
+        16 => match r.below(6) {
             0 => format!("gs:{}", hx(&rand_string_body(r))),
             1 => format!("gb:{}", to_hex(&rand_bytes(r))),
-            2 => format!("gr:{}", to_hex(&rand_bytes(r))),
+            2 | 4 | 5 => rand_reader(r),
             _ => format!("gj:{}", to_hex(&serde_json::to_vec(&rand_json(r, 0)).unwrap())),
         },
         _ => format!("q:{}", rand_pairs(r)),
     }
+}
+
+/// 33-80 header LINES: many distinct single-valued names plus 1-3 multi-valued names with 2-6 distinguishable values
+/// each, in random call order (a sort that is not stable shows in the order of the lines of one name)
+fn many_header_calls(r: &mut Rng) -> Vec<String> {
+    let target = 33 + r.below(48) as usize;
+    let nmulti = 1 + r.below(3) as usize;
+    let mut calls = vec![];
+    let mut lines = 0;
+    for m in 0..nmulti {
+        let nv = 2 + r.below(5) as usize;
+        let name = *r.pick(&["Accept", "x-multi", "Set-Cookie", "m", "zz-last", "a-first"]);
+        let vs: Vec<String> = (0..nv).map(|v| hx(&format!("m{m}v{v}"))).collect();
+        calls.push(format!("h:{}:{}", hx(&format!("{name}{m}")), vs.join(",")));
+        lines += nv;
+    }
+    let mut i = 0;
+    while lines < target {
+        let name = match r.below(4) {
+            0 => format!("X-H{i:03}"),
+            1 => format!("h{i}"),
+            2 => format!("{}-{i}", rand_text(r, &"abcxyz".chars().collect::<Vec<_>>(), 3)),
+            _ => format!("x-h{i:03}"),
+        };
+        calls.push(format!("h:{}:{}", hx(&name), hx(&format!("v{i}"))));
+        lines += 1;
+        i += 1;
+    }
+    // random call order
+    for k in (1..calls.len()).rev() {
+        let j = r.below(k as u64 + 1) as usize;
+        calls.swap(k, j);
+    }
+    if r.chance(1, 3) {
+        calls.push("bs:62".to_string());
+    }
+    calls
 }
 
 fn gen_req(seed: u64, n: usize) {
@@ -817,7 +942,8 @@ fn gen_req(seed: u64, n: usize) {
             7 | 8 => 4,
             _ => 8,
         };
-        let calls: Vec<String> = (0..ncalls).map(|_| rand_call(&mut r)).collect();
+        let calls: Vec<String> =
+            if r.chance(1, 25) { many_header_calls(&mut r) } else { (0..ncalls).map(|_| rand_call(&mut r)).collect() };
         let calls = if calls.is_empty() { "_".to_string() } else { calls.join(";") };
         if let Some(line) = mk_req(api, &method, &hx(&url), &calls) {
             writeln!(out, "{line}").unwrap();
@@ -903,7 +1029,81 @@ fn rand_result(r: &mut Rng, expect: &str) -> String {
             ),
         };
     }
+    if expect == "string" && r.chance(1, 2) {
+        return rand_charset_result(r);
+    }
     format!("ok:{}:{}:{}", rand_status(r), rand_resp_headers(r), to_hex(&rand_resp_body(r, expect)))
+}
+
+/// every family of encoding_rs labels (plus unknown ones and odd spellings of the parameter)
+const CHARSETS: [&str; 52] = [
+    // UTF-8 and aliases
+    "utf-8", "UTF-8", "utf8", "unicode-1-1-utf-8", "unicode11utf8", "x-unicode20utf8",
+    // UTF-16 (not ASCII-compatible)
+    "utf-16le", "UTF-16LE", "utf-16be", "utf-16", "ucs-2", "unicode", "unicodefeff", "unicodefffe", "csunicode",
+    // ISO-2022-JP (stateful, not ASCII-compatible) and the replacement encoding's labels
+    "iso-2022-jp", "csiso2022jp", "ISO-2022-JP", "iso-2022-kr", "iso-2022-cn", "iso-2022-cn-ext", "hz-gb-2312", "csiso2022kr",
+    "replacement",
+    // single byte
+    "windows-1252", "iso-8859-1", "latin1", "ascii", "us-ascii", "windows-1251", "windows-1250", "windows-1256",
+    "iso-8859-2", "iso-8859-7", "iso-8859-8-i", "iso-8859-15", "koi8-r", "macintosh", "ibm866", "x-mac-cyrillic",
+    // legacy multi-byte
+    "shift_jis", "sjis", "euc-jp", "euc-kr", "gbk", "gb2312", "gb18030", "big5", "x-user-defined",
+    // not labels
+    "bogus", "utf-7", "utf-32",
+];
+
+fn charset_body(r: &mut Rng) -> Vec<u8> {
+    let fixed: [&[u8]; 40] = [
+        b"", b"a", b"hi", b"h\0i\0", b"\0h\0i", b"h\0i", b"plain seven bit text, a little longer ~{ }~ \\ ^", b"\0", b"\0\0\0",
+        // ESC sequences (ISO-2022-JP: to JIS X 0208 and back; to roman; unfinished; invalid), HZ shifts
+        b"\x1b$B@\x1b(B", b"\x1b$B0!\x1b(B", b"\x1b(Jabc\\~", b"abc\x1b$B", b"\x1b", b"\x1b$", b"\x1b(Z", b"\x0e\x0f", b"~{<:~}",
+        // high-bit: UTF-8, Latin-1, Shift_JIS, EUC-KR, GBK, Big5, GB18030 four-byte, EUC-JP, half-width katakana
+        b"caf\xc3\xa9", b"caf\xe9", b"\x82\xa0", b"\xb0\xa1", b"\xc4\xe3", b"\xa4\xa4", b"\x81\x30\x81\x30", b"\xa4\xa2", b"\xb1",
+        b"\x80", b"\xff", b"\xf0\x9f\xa6\x80",
+        // truncated multi-byte sequences
+        b"\x82", b"a\xb0", b"a\x81\x30\x81", b"\xe3\x81", b"\x8f\xb0",
+        // byte order marks (of this or of another encoding), alone and with content
+        b"\xef\xbb\xbf", b"\xef\xbb\xbfhi", b"\xff\xfeh\0", b"\xfe\xff\0h", b"\xff\xfe",
+    ];
+    match r.below(10) {
+        0 => (0..r.below(12)).map(|_| (r.next() % 128) as u8).collect(), // random 7-bit
+        1 => (0..r.below(12)).map(|_| r.next() as u8).collect(),         // random bytes
+        2 => {
+            // UTF-16LE / BE text without a mark
+            let le = r.chance(1, 2);
+            "hé日".encode_utf16().flat_map(|u| if le { u.to_le_bytes() } else { u.to_be_bytes() }).collect()
+        }
+        _ => r.pick(&fixed).to_vec(),
+    }
+}
+
+fn rand_charset_result(r: &mut Rng) -> String {
+    let label = *r.pick(&CHARSETS);
+    let label = match r.below(8) {
+        0 => label.to_ascii_uppercase(),
+        1 => format!(" {label} "),
+        _ => label.to_string(),
+    };
+    let ct = match r.below(8) {
+        0 => format!("text/plain;charset={label}"),
+        1 => format!("text/plain; charset=\"{label}\""),
+        2 => format!("TEXT/HTML; CHARSET={label}"),
+        3 => format!("application/json; charset={label}; x=y"),
+        4 => format!("text/plain; x=y; charset={label}"),
+        _ => format!("text/plain; charset={label}"),
+    };
+    let name = *r.pick(&["Content-Type", "content-type", "CONTENT-TYPE"]);
+    let mut hs = vec![format!("{}={}", hx(name), hx(&ct))];
+    if r.chance(1, 6) {
+        // an earlier content type that must be ignored (the last one counts)
+        hs.insert(0, format!("{}={}", hx("content-type"), hx("text/plain; charset=utf-8")));
+    }
+    if r.chance(1, 4) {
+        hs.push(format!("{}={}", hx("x-a"), hx("1")));
+    }
+    let status = *r.pick(&[200u16, 200, 200, 201, 203, 301]);
+    format!("ok:{status}:{}:{}", hs.join(","), to_hex(&charset_body(r)))
 }
 
 const EXPECTS: [&str; 4] = ["bytes", "string", "jv", "ju"];
